@@ -377,4 +377,19 @@ def genWith (sp : PathOracle) (d : Desc) : D (Package × Module) := do
 
 def gen (d : Desc) : D (Package × Module) := genWith nxBidirBfs d
 
+/-- the generator up to the routing information (what the files are rendered from) -/
+def routed (d : Desc) : D Routed := do
+  validateDesc d
+  let g ← createNetwork d
+  let c ← compileNetwork d g
+  genRoutingInfo nxBidirBfs d c
+
+/-- hypothesis of `C03M.model_route_unpacks`, decided per description: every hop of every source route takes at
+    least one bit (a router on a route has at least two ports) -/
+def routeHypB (r : Routed) : Bool :=
+  r.routes.all fun (_, rs) => rs.all fun (_, rt) =>
+    match rt with
+    | some hops => hops.all fun (_, b) => 0 < b
+    | none => true
+
 end FlooVerif.Model
